@@ -36,6 +36,7 @@ import (
 	"bytes"
 	"encoding/base64"
 	"errors"
+	"fmt"
 	"io"
 	"io/ioutil"
 
@@ -131,6 +132,18 @@ func ReadSource(filename string, src interface{}) ([]byte, error) {
 	return ioutil.ReadFile(filename)
 }
 
+// parseSourceMap decodes a source map. The decoder takes for granted what a malformed document
+// leaves unset (a section without a map, for one) and panics on it; to the caller that is a source
+// map which cannot be read, like any other decoding error.
+func parseSourceMap(filename string, src []byte) (consumer *sourcemap.Consumer, err error) {
+	defer func() {
+		if caught := recover(); caught != nil {
+			consumer, err = nil, fmt.Errorf("invalid source map: %v", caught)
+		}
+	}()
+	return sourcemap.Parse(filename, src)
+}
+
 func ReadSourceMap(filename string, src interface{}) (*sourcemap.Consumer, error) {
 	if src == nil {
 		return nil, nil
@@ -138,19 +151,19 @@ func ReadSourceMap(filename string, src interface{}) (*sourcemap.Consumer, error
 
 	switch src := src.(type) {
 	case string:
-		return sourcemap.Parse(filename, []byte(src))
+		return parseSourceMap(filename, []byte(src))
 	case []byte:
-		return sourcemap.Parse(filename, src)
+		return parseSourceMap(filename, src)
 	case *bytes.Buffer:
 		if src != nil {
-			return sourcemap.Parse(filename, src.Bytes())
+			return parseSourceMap(filename, src.Bytes())
 		}
 	case io.Reader:
 		var bfr bytes.Buffer
 		if _, err := io.Copy(&bfr, src); err != nil {
 			return nil, err
 		}
-		return sourcemap.Parse(filename, bfr.Bytes())
+		return parseSourceMap(filename, bfr.Bytes())
 	case *sourcemap.Consumer:
 		return src, nil
 	}
